@@ -110,6 +110,10 @@ func runCampaign(c *ev.Ctx, o *campOpts) {
 			if d == nil {
 				panic(err)
 			}
+			if d.NumEvents() == 0 && d.Rejected == nil && below && o.mine["built-event-rejected"] {
+				c.Violation("build-failed", map[string]interface{}{"case": i, "error": err.Error()})
+				return
+			}
 			switch {
 			case !below:
 				c.Count("generator_stopped_early_byzantine", 1)
